@@ -386,6 +386,13 @@ func (x *Exec) unknownCall(st *State, fr *Frame, dst ssa.Value, c *ssa.CallCommo
 		x.bindResult(fr, dst, rs)
 		return
 	}
+	// `callee L = pat : mayset LOC, ...`: the callee may store an arbitrary value to the listed locations (whether it
+	// returns or panics), e.g. a handler that replaces the context of the message it was given
+	if i := strings.Index(behaviour, "mayset "); i >= 0 {
+		locs := strings.TrimSpace(behaviour[i+len("mayset "):])
+		x.havocModifies(st, x.envAt(st, fr), &Clause{Kind: "modifies", Text: locs})
+		x.note("callee " + what + " may set " + locs + " to any value")
+	}
 	total := strings.Contains(behaviour, "total") || strings.Contains(behaviour, "nopanic")
 	if !total {
 		ps := x.fork(st)
